@@ -178,7 +178,7 @@ class Check(RecordingCheck):
         self.stat("oracle", "end_to_end_fault_positions", n2)
         # report what is closest to the property text first: wrong results, then dead recovery runs, then the rest
         rank = lambda f: 0 if "stale-result" in f.key else 1 if "recovery-died" in f.key else 2 if "retry-changes" in f.key else 3
-        self.findings.sort(key=rank)
+        self.findings.sort(key=lambda f: (rank(f), 0 if ":query@" in f.key else 1))
         from harness.lib import load_known_findings
         known = {k["key"] for k in load_known_findings() if k.get("property") == self.id}
         unknown = [f for f in self.findings if f.key not in known]
